@@ -2,7 +2,7 @@
 TLC enumerates descriptor lists x names with the verdict of ScxmlChart!NameMatch
 (spec/MC_NameMatch.tla); the table is replayed through uscxml::nameMatch and the
 copy of the matcher shipped in test/src/test-gen-c.cpp (harness/fn_replay)."""
-import json, os, random, re, time
+import json, os, random, re, shutil, time
 from vlib import *
 
 
@@ -30,6 +30,65 @@ def signature(diff):
             return "list-miss"
         return "single-miss"
     return "false-match"
+
+
+def static_resolution(vecs, names, wd, tier, rnd):
+    """the matches ChartToPromela resolves statically (event trie): one document per descriptor list -- transition 0
+    carries the list, transition 1 mentions every name of the domain so that all of them are events of the document --
+    and the set of event macros in the emitted guard of transition 0 must be exactly the names NameMatch accepts"""
+    nameset = set(".".join(n) for n in names)
+
+    def stripped(d):
+        d2 = list(d)
+        if d2 and d2[-1] == "*":
+            d2 = d2[:-1]
+        if d2 and d2[-1] == "":
+            d2 = d2[:-1]
+        return ".".join(d2)
+    cand = [v for v in vecs if all(stripped(d) == "" or stripped(d) in nameset for d in v["d"])]
+    if tier == "quick" and len(cand) > 500:
+        cand = rnd.sample(cand, 500)
+    gen = os.path.join(wd, "pml")
+    shutil.rmtree(gen, ignore_errors=True)
+    os.makedirs(gen)
+    allnames = " ".join(sorted(nameset))
+    nsh = NCPU
+    batches = [open(os.path.join(gen, "b%02d.batch" % i), "wb") for i in range(nsh)]
+    for k, v in enumerate(cand):
+        text = " ".join(render_desc(d) for d in v["d"])
+        doc = ('<scxml xmlns="http://www.w3.org/2005/07/scxml" version="1.0" datamodel="promela" name="m">'
+               '<state id="s0"><transition event="%s" target="s1"/><transition event="%s" target="s1"/></state>'
+               '<state id="s1"/></scxml>' % (text, allnames)).encode()
+        batches[k % nsh].write(("DOC n%d pml %d\n" % (k, len(doc))).encode() + doc + b"\n")
+    for b in batches:
+        b.close()
+    res = run_parallel([[os.path.join(BIN, "xform"), os.path.join(gen, "b%02d.batch" % i), gen] for i in range(nsh)])
+    diffs = []
+    for k, v in enumerate(cand):
+        p_ = os.path.join(gen, "n%d.pml" % k)
+        text = " ".join(render_desc(d) for d in v["d"])
+        if not os.path.exists(p_):
+            diffs.append(("promela-static", text, "*", 0, -1))
+            continue
+        src = open(p_, errors="replace").read()
+        macro = {}
+        for mm in re.finditer(r"#define (\w+) (\d+) /\* ([^ ]+) \*/", src):
+            if not mm.group(1).startswith("ROOT"):
+                macro[mm.group(1)] = mm.group(3)
+        mm = re.search(r"\|\| \(i == 0(.*?)\)\s*\n", src)
+        guard = mm.group(1) if mm else None
+        if guard is None:
+            diffs.append(("promela-static", text, "*", 0, -1))
+            continue
+        if "&& (false" not in guard:
+            got = set(nameset)            # no event clause at all: the lone wildcard
+        else:
+            got = set(macro.get(x, "?" + x) for x in re.findall(r"== (\w+)", guard)) & nameset
+        exp = set(".".join(names[i - 1]) for i in v["m"])
+        for nm in sorted(got ^ exp):
+            diffs.append(("promela-static", text, nm, 1 if nm in exp else 0, 1 if nm in got else 0))
+    shutil.rmtree(gen, ignore_errors=True)
+    return diffs, len(cand)
 
 
 def run(pid, tier):
@@ -108,6 +167,8 @@ def run(pid, tier):
     if done != nvec:
         print("HARNESS FAILURE: %d of %d vectors replayed" % (done, nvec))
         sys.exit(2)
+    sdiffs, nstatic = static_resolution(vecs, names, wd, tier, rnd)
+    diffs.extend(sdiffs)
     # known findings
     known = [k for k in load_known() if k["property"] == "C12"]
     known_hit = {}
@@ -141,7 +202,8 @@ def run(pid, tier):
                    "distinct descriptor list (distinct_nontrivial counts lists, evaluations counts list x name x text variant x "
                    "2 implementations / 2)" % (maxdesc, 300 if tier == "quick" else 3000, len(names)),
            "samples": samples[:6], "exhaustive": True,
-           "implementations": ["uscxml::nameMatch", "StateMachine::nameMatch in test/src/test-gen-c.cpp"],
+           "implementations": ["uscxml::nameMatch", "StateMachine::nameMatch in test/src/test-gen-c.cpp",
+                               "static resolution in the emitted Promela guard (event trie), %d descriptor lists x %d names" % (nstatic, len(names))],
            "disagreements": len(diffs), "unexplained": len(unexplained),
            "tlc_states": p["distinct"]}
     write_evidence(pid, tier, "exploration", cov, time.time() - t0, len(unexplained),
